@@ -10,8 +10,8 @@ from mc.runner import Result
 ID = "C13"
 LEVEL = "model_checking"
 EPS = 1e-6
-IN_SLACK = 2.0 ** -21      # < 1e-6
-OUT_SLACK = 2.0 ** -19     # > 1e-6
+IN_SLACK = 0.75e-6         # inside the documented 1e-6 tolerance
+OUT_SLACK = 1.25e-6        # outside it
 
 KW_MENU_Q = [{}, {"MRTS": 2 * U}, {"MRTS": "auto"}, {"max_tau": U, "MRTS": 6 * U}, {"RI": True}]
 KW_MENU_T = KW_MENU_Q + [{"MRTS": 40 * U}, {"max_tau": 0.5 * U}, {"MRTS": "auto", "RI": True},
@@ -54,7 +54,8 @@ def plan(tier):
                                  "with its first and last spike repeated", "keyword": "MRTS='auto'",
                                  "entry_points": "the 16 list-form entry points"},
             "reconcile": {"alphabet": "lattice points 0..3 plus 6 tolerance probes (global edge "
-                                      "-/+ 2^-21 inside the 1e-6 slack, -/+ 2^-19 outside it, -/+ 1)",
+                                      "-/+ 0.75e-6 inside the 1e-6 slack, -/+ 1.25e-6 outside it, "
+                                      "-/+ 1); near the origin and at 2^20",
                           "sequence_length": 3 if q else 4,
                           "partners": "4 partner trains with equal / wider / shifted edges"},
             "measures": [{"N": N, "clock": k, "sequence_length": m,
@@ -153,14 +154,18 @@ def eval_reconcile(r, raws, edges, be="py", rank=()):
 def run_reconcile(task):
     r = Result()
     k = task["k"]
-    lat = [T0 + i * U for i in range(k + 1)]
-    partners = [([T0 + U], [T0, T0 + k * U]),                  # same edges
-                ([], [T0 - U, T0 + k * U]),                    # earlier start
-                ([T0 + (k + 1) * U], [T0, T0 + (k + 1) * U]),  # later end, spike on it
-                ([T0 - 2 * U, T0 + U], [T0 - 2 * U, T0 + (k + 2) * U])]
     idx = 0
-    for pi, (pspk, pedges) in enumerate(partners):
-        own = [T0, T0 + k * U]
+    # the lattice near the origin and the same lattice at 2^20 (the tolerance is absolute)
+    for base in (T0, 2.0 ** 20 + T0):
+      lat = [base + i * U for i in range(k + 1)]
+      partners = [([base + U], [base, base + k * U]),                  # same edges
+                  ([], [base - U, base + k * U]),                      # earlier start
+                  ([base + (k + 1) * U], [base, base + (k + 1) * U]),  # later end, spike on it
+                  ([base - 2 * U, base + U], [base - 2 * U, base + (k + 2) * U])]
+      if base != T0:
+          partners = partners[:2]
+      for pi, (pspk, pedges) in enumerate(partners):
+        own = [base, base + k * U]
         gts = min(own[0], pedges[0])
         gte = max(own[1], pedges[1])
         probes = [gts - IN_SLACK, gts - OUT_SLACK, gts - 1.0, gte + IN_SLACK, gte + OUT_SLACK,
